@@ -371,3 +371,29 @@ Definition keys_distinct_b (g : cfg) : bool :=
 (* no two constraint statements compare equal as `Constraint`s *)
 Definition constraint_keys_distinct_b (g : cfg) : bool :=
   pairwise_distinct constraint_eqb (filter_map (constraint_of (c_decls g)) (all_stmts g)).
+
+(* ---------- the part of an Assignment key that is written in the source ---------- *)
+
+(* the component names of an access path (`c[i].in` -> [in]); index expressions dropped *)
+Fixpoint acc_ports (acc : list (access expr)) : list ident :=
+  match acc with
+  | [] => []
+  | AComp n :: r => n :: acc_ports r
+  | AIdx _ :: r => acc_ports r
+  end.
+
+Fixpoint idents_eqb (a b : list ident) : bool :=
+  match a, b with
+  | [], [] => true
+  | x :: a', y :: b' => ident_eqb x y && idents_eqb a' b'
+  | _, _ => false
+  end.
+
+(* (location, base name, component path): no SSA version, no generated suffix,
+   no index expression, no degree claim *)
+Definition subkey_eqb (a b : assignment) : bool :=
+  meta_eqb (a_meta a) (a_meta b) && ident_eqb (vn_name (a_signal a)) (vn_name (a_signal b))
+  && idents_eqb (acc_ports (a_access a)) (acc_ports (a_access b)).
+
+Definition subkeys_distinct_b (g : cfg) : bool :=
+  pairwise_distinct subkey_eqb (filter_map assignment_of (all_stmts g)).
